@@ -28,6 +28,8 @@ pub enum Beh {
 
 pub enum CMsg {
     Call { id: u64, beh: Beh, reply: RpcReplyPort<u64> },
+    /// tuple form of `Call`, as the `call!` / `call_t!` macros with arguments build it
+    CallT(u64, Beh, RpcReplyPort<u64>),
     Panic,
 }
 #[cfg(feature = "cluster")]
@@ -60,7 +62,12 @@ impl Actor for Callee {
         Ok(CalleeState { kept: vec![] })
     }
     async fn handle(&self, _me: ActorRef<CMsg>, msg: CMsg, st: &mut CalleeState) -> Result<(), ActorProcessingErr> {
+        let msg = match msg {
+            CMsg::CallT(id, beh, reply) => CMsg::Call { id, beh, reply },
+            m => m,
+        };
         match msg {
+            CMsg::CallT(..) => unreachable!(),
             CMsg::Panic => panic!("{} callee panic", crate::probe::PANIC_MARK),
             CMsg::Call { id, beh, reply } => {
                 let client = CALLEE_CLIENT + self.idx as u32;
@@ -263,7 +270,25 @@ async fn vt_body(seed: u64, trace: Arc<Trace>) -> (Vec<String>, Vec<(String, Str
                 let t0 = tr.now_ms();
                 tr.log(Ev::Call { client: c as u32, op: "call", arg: id });
                 if api < 15 {
-                    let r = refs[0].call(|reply| CMsg::Call { id, beh, reply }, to).await;
+                    // the method, or the call!/call_t! macros (closure form and the form with arguments)
+                    let via = sp.below(4);
+                    let from_macro = |m: Result<u64, ractor::RactorErr<CMsg>>| -> Result<CallResult<u64>, ractor::MessagingErr<CMsg>> {
+                        match m {
+                            Ok(x) => Ok(CallResult::Success(x)),
+                            Err(ractor::RactorErr::Timeout) => Ok(CallResult::Timeout),
+                            Err(ractor::RactorErr::Messaging(ractor::MessagingErr::ChannelClosed)) => Ok(CallResult::SenderError),
+                            Err(ractor::RactorErr::Messaging(e)) => Err(e),
+                            Err(_) => Err(ractor::MessagingErr::InvalidActorType),
+                        }
+                    };
+                    let callee = &refs[0];
+                    let r = match (via, timeout) {
+                        (1, Some(ms)) => from_macro(ractor::call_t!(callee, CMsg::CallT, ms, id, beh)),
+                        (2, Some(ms)) => from_macro(ractor::call_t!(callee, |reply| CMsg::Call { id, beh, reply }, ms)),
+                        (1, None) => from_macro(ractor::call!(callee, CMsg::CallT, id, beh)),
+                        (2, None) => from_macro(ractor::call!(callee, |reply| CMsg::Call { id, beh, reply })),
+                        _ => callee.call(|reply| CMsg::Call { id, beh, reply }, to).await,
+                    };
                     let t1 = tr.now_ms();
                     let value = if let Ok(CallResult::Success(x)) = &r { Some(*x) } else { None };
                     tr.log(Ev::Ret { client: c as u32, op: "call", arg: id, res: code(&r) });
